@@ -741,3 +741,215 @@ def _(m, callee, args):
 @model(r'str::<impl str>::is_empty$|^String::is_empty$')
 def _(m, callee, args):
     return len(rstr(m, args[0]).cs) == 0
+
+
+# ------------------------------------------------------------------ more iterator adapters (closures run their real MIR)
+from .models import blen as _blen
+
+_it_next_base = it_next
+
+
+def it_next(m, it):      # noqa: F811  -- extends the dispatcher above
+    it = deref_all(m, it) if not isinstance(it, (PyIter, Iter)) else it
+    if isinstance(it, Iter):
+        if it.pos >= len(it.s.cs):
+            return None
+        c = it.s.cs[it.pos]
+        it.pos += 1
+        return c if it.kind == 'chars' else (_blen(m, it.s.cs[:it.pos - 1]), c)
+    k = it.kind
+    if k == 'filter':
+        while True:
+            v = it_next(m, it.inner)
+            if v is None:
+                return None
+            if truthy(m, m.call_closure(it.closure, [ValRef(v)])):
+                return v
+    if k == 'filter_map':
+        while True:
+            v = it_next(m, it.inner)
+            if v is None:
+                return None
+            r = m.call_closure(it.closure, [v])
+            if disc_is(m, r, 1):
+                return r.fields[0]
+    if k == 'flat_map':
+        while True:
+            if it.cur is not None:
+                v = it_next(m, it.cur)
+                if v is not None:
+                    return v
+                it.cur = None
+            o = it_next(m, it.inner)
+            if o is None:
+                return None
+            r = m.call_closure(it.closure, [o])
+            it.cur = into_iter(m, r)
+    if k == 'enumerate':
+        v = it_next(m, it.inner)
+        if v is None:
+            return None
+        it.n += 1
+        return (it.n - 1, v)
+    if k == 'rev':
+        if not it.buf_done:
+            it.buf = []
+            while True:
+                v = it_next(m, it.inner)
+                if v is None:
+                    break
+                it.buf.append(v)
+            it.buf_done = True
+        return it.buf.pop() if it.buf else None
+    if k == 'option':
+        if it.done:
+            return None
+        it.done = True
+        return it.value
+    return _it_next_base(m, it)
+
+
+models2.iter_next = it_next
+globals()['it_next'] = it_next
+
+
+def truthy(m, v):
+    if isinstance(v, bool):
+        return v
+    if is_sym(v):
+        return m.ctx.decide(v)
+    raise Unsupported(f'boolean expected, got {v!r}')
+
+
+def into_iter(m, v):
+    v = deref_all(m, v)
+    if isinstance(v, (PyIter, Iter)):
+        return v
+    if isinstance(v, Enum) and v.name in ('Some', 'None', 'Option?', 'Ok', 'Err'):
+        # Option / Result as IntoIterator
+        if v.name in ('Ok', 'Err'):
+            is_some = disc_is(m, v, 0)
+        else:
+            is_some = disc_is(m, v, 1)
+        return PyIter('option', done=not is_some, value=v.fields[0] if (is_some and v.fields) else None)
+    if isinstance(v, RVec):
+        return PyIter('list', items=list(v.items), pos=0)
+    if isinstance(v, list):
+        return PyIter('list', items=list(v), pos=0)
+    if isinstance(v, BTree):
+        return PyIter('list', items=[(k, val) for k, val in v.items], pos=0)
+    raise Unsupported(f'into_iter of {v!r}')
+
+
+def _next_model(m, callee, args):
+    v = it_next(m, args[0])
+    return NONE() if v is None else some(v)
+_prepend(r' as Iterator>::next$', _next_model)
+
+
+def _into_iter_model(m, callee, args):
+    return into_iter(m, args[0])
+_prepend(r' as IntoIterator>::into_iter$', _into_iter_model)
+
+
+@model(r' as Iterator>::all::<')
+def _(m, callee, args):
+    while True:
+        v = it_next(m, args[0])
+        if v is None:
+            return True
+        if not truthy(m, m.call_closure(args[1], [v])):
+            return False
+
+
+@model(r' as Iterator>::any::<')
+def _(m, callee, args):
+    while True:
+        v = it_next(m, args[0])
+        if v is None:
+            return False
+        if truthy(m, m.call_closure(args[1], [v])):
+            return True
+
+
+@model(r' as Iterator>::filter::<')
+def _(m, callee, args):
+    return PyIter('filter', inner=args[0], closure=args[1])
+
+
+@model(r' as Iterator>::filter_map::<')
+def _(m, callee, args):
+    return PyIter('filter_map', inner=args[0], closure=args[1])
+
+
+@model(r' as Iterator>::flat_map::<')
+def _(m, callee, args):
+    return PyIter('flat_map', inner=args[0], closure=args[1], cur=None)
+
+
+@model(r' as Iterator>::enumerate$')
+def _(m, callee, args):
+    return PyIter('enumerate', inner=args[0], n=0)
+
+
+@model(r' as Iterator>::rev$')
+def _(m, callee, args):
+    return PyIter('rev', inner=args[0], buf=None, buf_done=False)
+
+
+@model(r' as Iterator>::by_ref$')
+def _(m, callee, args):
+    return args[0]
+
+
+@model(r' as Iterator>::count$')
+def _(m, callee, args):
+    n = 0
+    while it_next(m, args[0]) is not None:
+        n += 1
+    return n
+
+
+@model(r' as Iterator>::fold::<')
+def _(m, callee, args):
+    acc = args[1]
+    while True:
+        v = it_next(m, args[0])
+        if v is None:
+            return acc
+        acc = m.call_closure(args[2], [acc, v])
+
+
+def drain(m, it):
+    out = []
+    while True:
+        v = it_next(m, it)
+        if v is None:
+            return out
+        out.append(v)
+
+
+@model(r' as Iterator>::collect::<Vec<.*>>$|^<Vec<.*> as FromIterator<.*>>::from_iter::<')
+def _(m, callee, args):
+    return RVec(drain(m, args[0]))
+
+
+@model(r' as Iterator>::collect::<String>$')
+def _(m, callee, args):
+    out = []
+    for v in drain(m, args[0]):
+        v = deref_all(m, v)
+        out.extend(v.cs if isinstance(v, RStr) else [v])
+    return RStr(out)
+
+
+@model(r' as Iterator>::collect::<Result<Vec<.*>, .*>>$')
+def _(m, callee, args):
+    out = []
+    while True:
+        v = it_next(m, args[0])
+        if v is None:
+            return OK(RVec(out))
+        if disc_is(m, v, 1):
+            return ERR(v.fields[0])
+        out.append(v.fields[0])
